@@ -129,7 +129,7 @@ struct Ctx {
 
 
     // part 1 (oracles.cpp)
-    void c05(); void c02(); void c01(); void c14(); void c03(); void c06(); void online(); void c08(); void c17();
+    void c05(); void c02(); void c01(); void c14(); void c03(); void c06(); void c07(); void online(); void c08(); void c17();
     bool pub_matches(const OpRec& o, const Packet& p) const;
     // part 2 (oracles2.cpp)
     void c04(); void c10(); void c11(); void c11x(); void c12(); void c13();
